@@ -112,9 +112,20 @@ fn main() {
         "tsan" => tsan::main(&a),
         "dump" => {
             // debugging aid: canonical dump of what a decoder makes of a file given as hex
-            let data = canon::unhex(&a.str("hex", ""));
+            let data = match a.kv.get("file") {
+                Some(f) => std::fs::read(f).expect("file"),
+                None => canon::unhex(&a.str("hex", "")),
+            };
+            let t0 = std::time::Instant::now();
             let d = if a.str("fmt", "bin") == "bin" { rbx_binary::from_reader(&data[..]).map_err(|e| e.to_string()) } else { rbx_xml::from_reader_default(&data[..]).map_err(|e| e.to_string()) };
             match d {
+                Ok(d) if a.flag("time") => {
+                    let t1 = t0.elapsed();
+                    let j = canon::dump_decoded(&d);
+                    let t2 = t0.elapsed();
+                    let dg = canon::digest(&j);
+                    println!("decode {:?}  dump {:?}  digest {:?} ({:x})", t1, t2 - t1, t0.elapsed() - t2, dg);
+                }
                 Ok(d) => println!("{}", serde_json::to_string_pretty(&canon::dump_decoded(&d)).unwrap()),
                 Err(e) => println!("error: {}", e),
             }
